@@ -152,6 +152,41 @@ def fcn_fn(case, wit):
     return (hist[-1], fund, tuple(sorted(classes)))
 
 
+_STATES = None
+
+
+def fcn_persistent_cases(tier):
+    for (wf, wc, wn) in WEIGHTS:
+        for inner in INNER:
+            yield (wf, wc, wn) + inner
+
+
+def fcn_persistent_fn(case, wit):
+    """ONE long-lived agent per parameter set consulted on every market state in turn (agents are
+    long-lived in a simulation; anything an agent remembers between consultations is exercised)"""
+    global _STATES
+    if _STATES is None:
+        _STATES = [(hist, fund, mk_hist_market(0, hist, fund)) for hist, fund in fcn_cases("quick")]
+    wf, wc, wn, ns, g, win, mr, k = case
+    a = FCNAgent(3, StubRandom(g=g), Sim(), "a")
+    st = {"cashAmount": 100, "assetVolume": 1, "fundamentalWeight": wf, "chartWeight": wc, "noiseWeight": wn,
+          "noiseScale": ns, "timeWindowSize": win, "orderMargin": k}
+    if mr:
+        st["meanReversionTime"] = mr
+    a.setup(st, [0])
+    classes = set()
+    for hist, fund, m in _STATES:
+        orders = a.submit_orders([m])
+        for o in orders:
+            well_formed(o, a, wit)
+        p, r, ph = fcn_reference(m, fund, wf, wc, wn, ns, g, win, mr)
+        tag = "long-lived agent, history %s fundamental %s weights (%s,%s,%s) noise %s x %s window %s mean-reversion %s margin %s" % (
+            hist, fund, wf, wc, wn, ns, g, win, mr, k)
+        classes.add(check_fcn_orders(orders, m, p, r, ph, k, win, 0, wit, tag))
+        wit.inc("fcn_persistent_cases")
+    return tuple(sorted(classes))
+
+
 # ------------------------------------------------------------------------------------------------ MarketShareFCN
 
 
@@ -336,17 +371,18 @@ def arb_fn(case, wit):
     return ("buy" if io[0].is_buy else "sell", ncomp)
 
 
-GRIDS = {"fcn": fcn_fn, "market_share_fcn": share_fn, "market_maker": mm_fn, "arbitrage": arb_fn}
+GRIDS = {"fcn_long_lived_agent": fcn_persistent_fn, "fcn": fcn_fn, "market_share_fcn": share_fn, "market_maker": mm_fn, "arbitrage": arb_fn}
 
 
 def run(tier, seed):
     res = common.Result("C20", tier, seed)
     run_grid(res, "fcn", list(fcn_cases(tier)), fcn_fn, seed)
+    run_grid(res, "fcn_long_lived_agent", list(fcn_persistent_cases(tier)), fcn_persistent_fn, seed)
     run_grid(res, "market_share_fcn", list(share_cases(tier)), share_fn, seed)
     run_grid(res, "market_maker", list(mm_cases(tier)), mm_fn, seed)
     run_grid(res, "arbitrage", list(arb_cases(tier)), arb_fn, seed)
     cov = res.coverage
-    cov["evaluations"] += cov["witness_classes"].get("fcn_cases", 0)
+    cov["evaluations"] += cov["witness_classes"].get("fcn_cases", 0) + cov["witness_classes"].get("fcn_persistent_cases", 0)
     cov["grids"]["fcn"]["inner_cases_per_market_state"] = len(WEIGHTS) * len(INNER)
     cov["exhaustive"] = True
     cov["rule"] = RULE
